@@ -398,4 +398,69 @@ theorem process_arith (hfl : FlattenSound K) (hsi : SimplifySoundArith K) {S : S
   rw [constraintHolds_arith hc.notAssert ha hb]
   exact hn3 ρ a b ea eb
 
+/-- both sides of the constraint are defined at every assignment. -/
+def DefinedC (c : Constraint (Ext K)) : Prop :=
+  ∀ ρ : String → K, ∃ a b, eval ρ c.lhs = some a ∧ eval ρ c.rhs = some b
+
+theorem drain_arith (hfl : FlattenSound K) (hsi : SimplifySoundArith K) {S : String → Prop} :
+    ∀ (n : Nat) (s : St (Ext K)) (r : Unit × St (Ext K)), drain n s = .ok r →
+      (∀ c ∈ s.queue, ArithC S c) →
+      ∃ new : List (MidRow (Ext K)), r = ((), { s with queue := [], rows := s.rows ++ new }) ∧
+        (∀ row ∈ new, ∀ x ∈ row.lhs.map (·.1), S x) ∧
+        ((∀ c ∈ s.queue, DefinedC c) →
+          (∀ row ∈ new, RowOK row) ∧
+          ∀ ρ : String → K, BoolOK ρ s.domain S →
+            ((∀ row ∈ new, rowTrue ρ row) ↔ ∀ c ∈ s.queue, constraintHolds ρ c = true)) := by
+  intro n
+  induction n with
+  | zero => intro s r h; simp [drain, fail_ok] at h
+  | succ n ih =>
+    intro s r h hq
+    rw [drain_succ] at h
+    simp only [bind_ok, get_ok] at h
+    obtain ⟨s0, s0', h0, h⟩ := h
+    cases h0
+    cases hqs : s.queue with
+    | nil =>
+      simp only [hqs, pure_ok] at h
+      refine ⟨[], ?_, by simp, fun _ => ⟨by simp, fun ρ _ => by simp⟩⟩
+      rw [h]
+      cases s
+      simp at hqs ⊢
+      exact hqs
+    | cons c rest =>
+      simp only [hqs, bind_ok, set_ok] at h
+      obtain ⟨u, s1, h1, u2, s2, h2, h3⟩ := h
+      cases h1
+      have hc : ArithC S c := hq c (by simp [hqs])
+      obtain ⟨new1, hn1, hn2, hn3⟩ := process_arith hfl hsi hc h2
+      cases hn1
+      obtain ⟨new2, hm1, hm2, hm3⟩ := ih _ _ h3 (by
+        intro c' hc'; exact hq c' (by simp only [hqs]; exact List.mem_cons_of_mem _ hc'))
+      refine ⟨new1 ++ new2, ?_, ?_, ?_⟩
+      · rw [hm1]; simp
+      · intro row hrow
+        rcases List.mem_append.mp hrow with h' | h'
+        · exact hn2 row h'
+        · exact hm2 row h'
+      · intro hdef
+        have hdc : DefinedC c := hdef c (by simp)
+        have hdrest : ∀ c' ∈ rest, DefinedC c' := fun c' hc' => hdef c' (List.mem_cons_of_mem _ hc')
+        obtain ⟨ok2, sem2⟩ := hm3 hdrest
+        obtain ⟨a0, b0, ha0, hb0⟩ := hdc (fun _ => 0)
+        refine ⟨?_, ?_⟩
+        · intro row hrow
+          rcases List.mem_append.mp hrow with h' | h'
+          · exact (hn3 _ a0 b0 ha0 hb0).1 row h'
+          · exact ok2 row h'
+        · intro ρ hB
+          obtain ⟨a, b, ha, hb⟩ := hdc ρ
+          have s1' := (hn3 ρ a b ha hb).2 hB
+          have s2' := sem2 ρ hB
+          simp only [List.mem_append, List.mem_cons, forall_eq_or_imp]
+          rw [← s1', ← s2']
+          constructor
+          · intro hall; exact ⟨fun row hr => hall row (Or.inl hr), fun row hr => hall row (Or.inr hr)⟩
+          · rintro ⟨h1', h2'⟩ row (hr | hr); exacts [h1' row hr, h2' row hr]
+
 end Rooc.LinP
